@@ -5,7 +5,7 @@ import sys
 
 from engine import oracles
 from engine.runner import Ob
-from props.common import cache_entries, defined_ops, has_interp, make_portable, mkbytes, tables_for, tshort
+from props.common import cache_entries, defined_ops, has_interp, install_iter_unpack_model, make_portable, mkbytes, tables_for, tshort
 from props.c02 import _pick
 
 LEVEL = "model_checking"
@@ -181,6 +181,108 @@ def make_ob(tname, opc, op, ctx, fmt, hi, tier, lines=False):
               skeleton="table=%s opcode=%d(%s) context=%d loads format=%s" % (tname, op, opc.opname[op], ctx, fmt),
               bound="operand 0..%d within validity" % hi, timeout=60 if tier == "quick" else 200,
               oracle="listing parsed back vs real instruction stream; stdout/stderr capture")
+
+
+def linetab_ob(tname, opc, fmt, tier):
+    """line-number column vs the line table decoded by CPython's own dis source (not by xdis): NOPs with a two-entry line
+    table whose bytes are symbolic choices among boundary values (the listing renders numbers as text: realised)"""
+    from props.common import SymCode
+    from refmodels import lines310 as M310
+    vt = tuple(opc.version_tuple[:2])
+    word = vt >= (3, 6)
+    signed = vt >= (3, 6)
+    nop = _pick(opc, ["NOP", "POP_TOP"])
+    ninst = 6
+    step = 2 if word else 1
+    items = [nop, 0] * ninst if word else [nop] * ninst
+    FL = [1, 300]
+    INC = [0, step, 2 * step]
+    DL = [0, 1, 127, 128, 129, 255] if word else [0, 1, 128, 255]    # (the 2.7 source model costs more per path)
+    params = [("f", (0, 1)), ("a0", (0, 2)), ("l0", (0, len(DL) - 1)), ("a1", (0, 2)), ("l1", (0, len(DL) - 1))]
+
+    def table(kw):
+        i0, i1 = INC[kw["a0"]], INC[kw["a1"]]
+        d0, d1 = DL[kw["l0"]], DL[kw["l1"]]
+        if vt == (3, 10):
+            rest = len(items) - i0 - i1
+            return [i0, d0, i1, d1, rest, 0]
+        return [i0, d0, i1, d1]
+
+    def pre(**kw):
+        t = table(kw)
+        fl = FL[kw["f"]]
+        if vt == (3, 10):
+            for _s, _e, l in M310.ranges(t, fl):
+                if l is not None and not (l >= 1):
+                    return False
+            return True
+        line = fl
+        for j in (1, 3):
+            d = t[j]
+            line = line + (d - 256 if (signed and d >= 128) else d)
+            if not (line >= 1):
+                return False
+        return True
+
+    def run(kw):
+        import xdis.bytecode as B
+        t = table(kw)
+        fl = FL[kw["f"]]
+        lnotab = bytes(t)
+        code = make_portable(vt, co_code=bytes(items), co_firstlineno=fl, co_lnotab=lnotab if vt >= (3, 0) else lnotab,
+                             co_filename="w.py", co_name="w", co_stacksize=1)
+        if vt == (3, 10):
+            ref = M310.linestarts(t, fl)
+        else:
+            rc = SymCode(co_lnotab=lnotab, co_firstlineno=fl, co_code=bytes(items))
+            ref = list(oracles.load_dis(vt).findlinestarts(rc)) if (vt >= (3, 6) and has_interp(opc)) else list(oracles.load_dis27()["findlinestarts"](rc))
+        saved = sys.stdout, sys.stderr
+        sys.stdout, sys.stderr = io.StringIO(), io.StringIO()
+        try:
+            text = B.Bytecode(code, opc).dis(asm_format=fmt)
+        finally:
+            sys.stdout, sys.stderr = saved
+        return text, ref, t, fl
+
+    def judge(r):
+        text, ref, t, fl = r
+        shown = []
+        seen = 0
+        for ln in text.split("\n"):
+            if not ln.strip() or ln.startswith("#"):
+                continue
+            m = LINE_RE.match(ln)
+            if m is None:
+                return "unparsable listing line %r" % (ln,)
+            seen += 1
+            if m.group(1) is not None:
+                # xdis repeats the line number when a new table entry continues the same line (its dup_lines convention,
+                # an extension over dis): a repeated number is not a disagreement about where lines start
+                if not shown or shown[-1][1] != int(m.group(1)):
+                    shown.append((int(m.group(4)), int(m.group(1))))
+        if seen != ninst:
+            return "%d instruction lines for %d instructions" % (seen, ninst)
+        want = [(int(o), int(l)) for o, l in ref]
+        if shown != want:
+            return "line table %r, first line %d: the listing starts lines at %r, CPython's line table at %r" % (bytes(t), fl, shown, want)
+        return None
+
+    def body(**kw):
+        d = judge(run(kw))
+        assert d is None, "unfaithful: " + d
+
+    def replay(**kw):
+        try:
+            return judge(run(kw))
+        except Exception as e:
+            return "Bytecode.dis(%s) raises %s: %s" % (fmt, type(e).__name__, str(e)[:150])
+
+    return Ob(id="C12.%s.linetab.%s" % (tshort(tname), fmt), prop="C12", params=params, body=body, pre=pre, replay=replay, funcs=FUNCS,
+              opaque_repr=False, region="%s.%s" % (tshort(tname), fmt),
+              skeleton="table=%s: %d NOPs, two line-table entries (increments %r, line bytes %r), first line %r, format %s" % (tname, ninst, INC, DL, FL, fmt),
+              bound="table bytes: symbolic choice among the listed boundary values", timeout=120 if tier == "quick" else 300,
+              setup=install_iter_unpack_model if vt == (3, 10) else None,
+              oracle="line starts from CPython's own dis source / lines310 model, not from xdis")
 
 
 def ext_ob(tname, opc, k, fmt, tier):
@@ -405,6 +507,7 @@ C12_TABLES = ["opcode_27", "opcode_36", "opcode_39", "opcode_311", "opcode_312",
 def generate(tier, seed):
     from props.common import opc_tables
     tabs = opc_tables()
+    oracles.load_dis27()
     extra = [corpus_files_ob(f, g) for f in ("classic", "bytes", "extended", "extended-bytes", "xasm", "header") for g in ("rest", "3.2pypy")]
     names = C12_TABLES if tier == "quick" else sorted(tabs)
     obs = []
@@ -442,6 +545,13 @@ def generate(tier, seed):
             for k in ((1, 2) if vt >= (3, 6) else (1,)):
                 for fmt in (("classic",) if tier == "quick" else ("classic", "bytes", "extended")):
                     obs.append(ext_ob(tname, opc, k, fmt, tier))
+        if vt <= (3, 10):
+            for fmt in (("classic",) if tier == "quick" else ("classic", "bytes", "extended")):
+                obs.append(linetab_ob(tname, opc, fmt, tier))
         for fmt in ("classic", "xasm", "extended"):
             obs.append(disco_ob(tname, opc, fmt, tier))
+    if tier == "quick":
+        for tname in ("opcode_38", "opcode_310"):
+            oracles.load_dis(tuple(tabs[tname].version_tuple[:2]))
+            obs.append(linetab_ob(tname, tabs[tname], "classic", tier))
     return obs + extra
